@@ -27,6 +27,17 @@ type Job struct {
 	KeepOutputs bool   `json:"keepOutputs,omitempty"` // return the sources
 	WriteTo     string `json:"writeTo,omitempty"`     // write outputs as files into this directory (E5)
 	Repeat      int    `json:"repeat,omitempty"`      // run the case N extra times in the same process and compare
+	Schedule    []int  `json:"schedule,omitempty"`    // map-iteration schedule (instrumented build only)
+	UseSchedule bool   `json:"useSchedule,omitempty"`
+	InDir       string `json:"inDir,omitempty"` // materialise the case here instead of the worker's own directory
+}
+
+// TracePoint is one map-iteration choice point met during a run.
+type TracePoint struct {
+	Site    string `json:"site"`
+	N       int    `json:"n"`
+	Choices int    `json:"choices"`
+	Full    bool   `json:"full"`
 }
 
 // Resp is a worker's answer.
@@ -38,6 +49,7 @@ type Resp struct {
 	Crash    string                  `json:"crash,omitempty"` // worker died (fatal error): stderr tail
 	Hang     bool                    `json:"hang,omitempty"`
 	Unstable string                  `json:"unstable,omitempty"`
+	Trace    []TracePoint            `json:"trace,omitempty"`
 }
 
 func Hash(s string) string {
@@ -78,7 +90,17 @@ func WorkerMain(exportList string) {
 		fmt.Fprintf(os.Stderr, "BEGIN %d %s\n", j.Seq, j.Case.ID)
 		r := Resp{Seq: j.Seq}
 		cdir := filepath.Join(dir, "c")
+		if j.InDir != "" {
+			cdir = j.InDir
+		}
+		if j.UseSchedule {
+			setSchedule(j.Schedule)
+		}
 		r.Res = Gen(cdir, *j.Case)
+		if j.UseSchedule {
+			r.Trace = getTrace()
+			setSchedule(nil)
+		}
 		for k := 0; k < j.Repeat; k++ {
 			r2 := Gen(cdir, *j.Case)
 			if !sameResult(r.Res, r2) {
